@@ -169,11 +169,16 @@ def generate(rng: random.Random, batch: dict, depth: int = 0) -> dict:
 
 def _generate(rng: random.Random, batch: dict) -> dict:
     if batch.get("bundled"):
-        sysname = rng.choice(["stuart_landau", "lorenz"])
-        fam = rng.choice(BUNDLED_FAMILIES)
+        sysname = rng.choice(["stuart_landau", "lorenz", "stuart_landau",
+                              "lorenz", "three_coupled_oscillators"])
+        # six state dimensions of which two enter J; only the generated
+        # networks exist for that many dimensions
+        fam = "anns" if sysname == "three_coupled_oscillators" \
+            else rng.choice(BUNDLED_FAMILIES)
         system = {"bundled": [sysname, fam, rng.randrange(8)]}
         dim = _bundled_dim(system["bundled"])
-        sdcd = ({"stuart_landau": 2, "lorenz": 3}[sysname], 1)
+        sdcd = ({"stuart_landau": 2, "lorenz": 3,
+                 "three_coupled_oscillators": 6}[sysname], 1)
     else:
         system = gen_system(rng)
         dim = system["sd"] * system["cd"]
@@ -377,8 +382,9 @@ def _build(sysdoc: dict, name: str | None = None):
         cidx = sysdoc["bundled"][2] if len(sysdoc["bundled"]) > 2 else 0
         smod = importlib.import_module(
             f"moptipyapps.dynamic_control.systems.{sname}")
-        base = getattr(smod, {"stuart_landau": "STUART_LANDAU_4",
-                              "lorenz": "LORENZ_4"}[sname])
+        base = getattr(smod, {
+            "stuart_landau": "STUART_LANDAU_4", "lorenz": "LORENZ_4",
+            "three_coupled_oscillators": "THREE_COUPLED_OSCILLATORS"}[sname])
         # shorter training legs keep one evaluation at ~50 ms
         system = System(base.name, base.state_dims, base.control_dims,
                         base.state_dim_mod, base.state_dims_in_j, base.gamma,
